@@ -1,12 +1,20 @@
 #!/bin/bash
 # Runs every seeded change against the check of its property (in a scratch worktree, never in /repo) and prints one line
 # per seed: detected (exit 1 + VIOLATION) or MISSED.  Results -> seeded/RESULTS.txt
+# usage: seeds_all.sh [lanes]   (lanes > 1: that many seeds are checked side by side)
 cd "$(dirname "$0")/.."
-out=seeded/RESULTS.txt; : > $out
-for d in seeded/*/; do
-  sid=$(basename $d); pid=$(python3 -c "import json; print(json.load(open('$d/meta.json'))['property'])")
-  if grep -q '"retired"' $d/meta.json; then echo "$sid ($pid): retired (no longer applies to HEAD as a valid seed, see meta.json)" | tee -a $out; continue; fi
-  bin/seed_check.sh $d/patch.diff $pid > /tmp/seedsall_$sid.log 2>&1
-  if grep -q "rc=1 " /tmp/seedsall_$sid.log && grep -q "^VIOLATION" /tmp/seedsall_$sid.log; then res="detected"; else res="MISSED"; fi
-  echo "$sid ($pid): $res :: $(head -1 /tmp/seedsall_$sid.log)" | tee -a $out
-done
+lanes=${1:-1}
+out=seeded/RESULTS.txt
+tmp=$(mktemp -d /tmp/seedsall-XXXXXX)
+one() {
+  d=$1; sid=$(basename $d); pid=$(python3 -c "import json; print(json.load(open('$d/meta.json'))['property'])")
+  if grep -q '"retired"' $d/meta.json; then echo "$sid ($pid): retired (no longer applies to HEAD as a valid seed, see meta.json)" > $tmp/$sid.res; cat $tmp/$sid.res; return; fi
+  SEEDCHECK_TAG=_$sid bin/seed_check.sh $d/patch.diff $pid > $tmp/$sid.log 2>&1
+  rm -f /tmp/seedcheck_${pid}_$sid.log
+  if grep -q "rc=1 " $tmp/$sid.log && grep -q "^VIOLATION" $tmp/$sid.log; then res="detected"; else res="MISSED"; fi
+  echo "$sid ($pid): $res :: $(head -1 $tmp/$sid.log)" > $tmp/$sid.res; cat $tmp/$sid.res
+}
+export -f one; export tmp
+ls -d seeded/*/ | xargs -P $lanes -I{} bash -c 'one {}'
+cat $(ls $tmp/*.res | sort) > $out
+rm -rf $tmp
